@@ -299,6 +299,51 @@ def resolveNamesG (strtab : SecBuf) (num : BitVec 16) : Nat → BitVec 16 → Li
           resolveNamesG strtab num fuel (i + 1) (secs.set i.toNat b)
     else pure secs
 
+/-- What the driver executes for `resolveNamesG`: the same loop over an `Array` (`sections[i]` and the
+    write-back are O(1) instead of O(i) on a list — 65535 zeroed sections made the list version take
+    minutes).  Equal to `resolveNamesG` by the proved equation below, not by assumption. -/
+def resolveNamesA (strtab : SecBuf) (num : BitVec 16) : Nat → BitVec 16 → Array SecBuf → M (Array SecBuf)
+  | 0, _, secs => pure secs
+  | fuel + 1, i, secs =>
+    if load_sections_names_for i num then
+      match secs[i.toNat]? with
+      | none => throw (.nullDeref "load_sections/sections[i]")
+      | some b =>
+        getString strtab b.nameOff >>= fun r =>
+          let b := if load_sections_name_found r.isSome then
+                     (match r with | some s => { b with name := s } | none => b)
+                   else b
+          resolveNamesA strtab num fuel (i + 1) (secs.setIfInBounds i.toNat b)
+    else pure secs
+
+def resolveNamesGImpl (strtab : SecBuf) (num : BitVec 16) (fuel : Nat) (i : BitVec 16) (secs : List SecBuf) :
+    M (List SecBuf) :=
+  (resolveNamesA strtab num fuel i secs.toArray).map Array.toList
+
+theorem resolveNamesA_toList (strtab : SecBuf) (num : BitVec 16) (fuel : Nat) (i : BitVec 16) (a : Array SecBuf) :
+    (resolveNamesA strtab num fuel i a).map Array.toList = resolveNamesG strtab num fuel i a.toList := by
+  induction fuel generalizing i a with
+  | zero => rfl
+  | succ n ih =>
+    unfold resolveNamesA resolveNamesG
+    split
+    · rw [← Array.getElem?_toList]
+      cases h : a.toList[i.toNat]? with
+      | none => rfl
+      | some b =>
+        dsimp only
+        cases hg : getString strtab b.nameOff with
+        | error e => rfl
+        | ok r =>
+          show (resolveNamesA strtab num n (i + 1) _).map Array.toList = resolveNamesG strtab num n (i + 1) _
+          rw [ih, Array.toList_setIfInBounds]
+    · rfl
+
+@[csimp] theorem resolveNamesG_eq_impl : @resolveNamesG = @resolveNamesGImpl := by
+  funext strtab num fuel i secs
+  unfold resolveNamesGImpl
+  rw [resolveNamesA_toList]
+
 def memberOf (g : Seg) (b : SecBuf) : Bool :=
   let segEndOff := load_segments_seg_end_off g.offset g.filesz
   let segEndAddr := load_segments_seg_end_addr g.vaddr g.memsz
